@@ -146,10 +146,23 @@ static void do_rfiter()
     Setup s = read_setup();
     unsigned K = nextl();
     int dump = nextl();
-    auto g1 = grid(s), g2 = grid(s);
+    // (family st3kick) wired as main() wires an impedance-free, damping-free run: grid_t1 is built and filled first and its
+    // caches (bunch / energy profile, integral) are those of the START distribution; grid_t2 and grid_t3 are COPIES of it
+    // (copy constructor: data + caches, computed once); the wake stand-in is an Identity grid_t1 -> grid_t2, the RF kick maps
+    // grid_t2 -> grid_t1, the drift grid_t1 -> grid_t3, the Fokker-Planck stand-in is an Identity grid_t3 -> grid_t1, and after
+    // every step only grid_t1's bunch profile is refreshed (main.cpp: grid_t1->updateXProjection()).  Whatever a kick reads
+    // from its input grid besides the data is therefore as stale here as in the program: the RF kick reads grid_t2, whose
+    // profile dates from set-up.  The blobs have compact support, so the start profile has exact-zero columns which the orbit
+    // later carries charge into.  (Identity copies bit for bit: the moments are those of the former two-grid chain.)
+    auto g1 = grid(s);
     for (size_t i = 0; i < (size_t)s.nb * s.n * s.n; i++) g1->getData()[i] = nextf();
-    auto rf = mkrf(s, g1, g2);
-    DriftMap dm(g2, g1, s.slip, s.E0, static_cast<SourceMap::InterpolationType>(s.it), false, nullptr);
+    g1->updateXProjection(); g1->updateYProjection(); g1->integrate();
+    auto g2 = std::make_shared<PhaseSpace>(*g1);
+    auto g3 = std::make_shared<PhaseSpace>(*g1);
+    Identity wm(g1, g2, nullptr);
+    auto rf = mkrf(s, g2, g1);
+    DriftMap dm(g1, g3, s.slip, s.E0, static_cast<SourceMap::InterpolationType>(s.it), false, nullptr);
+    Identity fpm(g3, g1, nullptr);
     printf("case %s\n", s.id.c_str());
     printf("rfconst"); pf(std::tan(rf->_angle)); pf(rf->_bl2phase); pf(rf->_syncphase);
     printf("\naxis");
@@ -160,10 +173,13 @@ static void do_rfiter()
         auto m = moments(s, *g1);
         std::vector<double> ex(s.nb, 0.0);
         if (k < K) {
-            for (unsigned b = 0; b < s.nb; b++) ex[b] = exposed(s, *g1, *rf, true, b);
+            wm.apply();
+            for (unsigned b = 0; b < s.nb; b++) ex[b] = exposed(s, *g2, *rf, true, b);
             rf->apply();
-            for (unsigned b = 0; b < s.nb; b++) ex[b] += exposed(s, *g2, dm, false, b);
+            for (unsigned b = 0; b < s.nb; b++) ex[b] += exposed(s, *g1, dm, false, b);
             dm.apply();
+            fpm.apply();
+            g1->updateXProjection();
         }
         printf("m");
         for (unsigned b = 0; b < s.nb; b++) { pd(m[b][0]); pd(m[b][1]); pd(m[b][2]); pd(ex[b]); }
